@@ -359,6 +359,8 @@ def selftest_cases(n):
         if r.random() < 0.4:
             c["others"] = [r.choice(names)]
         out.append(c)
+    for i in range(n // 3):
+        out.append({"kind": "stagger", "seed": 1313 + i, "first": STAGGER_FIRST[i % len(STAGGER_FIRST)], "second": STAGGER_SECOND[i % len(STAGGER_SECOND)], "k": r.randrange(0, 40), "j": r.randrange(1, 4), "warm": i % 3})
     return out
 
 
